@@ -6,7 +6,7 @@ import YaegiVerif.Proofs.C06Dom
 /- Line-protocol front end for C06 (glue, not a proof obligation).
      unwind FUEL BODY      → y=<outcome> g=<outcome> d=<1 iff BODY is in the domain of the refinement theorem>
    BODY  = (STMT …)
-   STMT  = (print s) | (printarg) | (call BODY ARG show) | (defer BODY ARG) | (defervar BODY ARG) | (deferbin s ARG)
+   STMT  = (print s) | (printarg) | (call BODY ARG show) | (defer BODY ARG) | (defervar BODY ARG) | (deferbin s ARG) | (deferbinv s (n …))
          | (deferdel t) | (deferpanic VAL) | (probe t) | (panic VAL) | (recover show) | (recoveris VAL) | (repanic)
          | (setres n) | (setouter n)
    ARG   = (lit n) | param | res
@@ -66,6 +66,9 @@ mutual
       | .list [.atom "recoveris", v] => do
         let v ← parseVal v
         some (.recoverIs v k)
+      | .list [.atom "deferbinv", .atom s, .list ns] => do
+        let ns ← ns.mapM (·.int?)
+        some (.deferBinSpread s ns k)
       | .list [.atom "deferbin", .atom s, a] => do
         let a ← parseArg a
         some (.deferBin s a k)
@@ -117,6 +120,9 @@ def showEvent : Event → String
   | .bin s n => s ++ "_" ++ toString n
   | .probe t p => "probe_" ++ toString t ++ "_" ++ toString p
   | .recIs b => "is_" ++ toString b
+  | .bins s ns sp =>
+    let body := "_".intercalate (s :: ns.map toString)
+    if sp then body else "[" ++ body ++ "]"
 
 def showStatus : Status → String
   | .ok => "ok" | .panicErr (some v) => "panic:" ++ showVal v ++ ":" ++ typeTag v | .panicErr none => "panic:?"
